@@ -91,6 +91,7 @@ func init() {
 				if fn == nil {
 					return
 				}
+				prependProductRule(P, R, "C10.f")
 				sts := receiverStores(fn)
 				R.decide("C10.f", kPrepend+":one-store", "exactly one store through the receiver", len(sts) == 1, fmt.Sprintf("%d stores", len(sts)), P.Pos(fn.Pos()))
 				for _, st := range sts {
